@@ -131,3 +131,57 @@ pub fn c20_ttl(rep: &mut Report, backend: Bk) {
         }
     }
 }
+
+/// C20 (retention across a restart): a client that stored snapshots under retention r1 is restarted with
+/// retention r2, for every pair (r1, r2) in 0..=6 and every restart position in a straight run of 6
+/// commits; after the next commit the store holds at most r2 snapshots, and they are the most recent ones.
+pub fn c20_retention_change(rep: &mut Report) {
+    let m = ["A", "B", "Z"];
+    let ad = ["A", "B"];
+    let mut node = act("A", ActKind::Rename("r6".into()), 60);
+    for k in (1..6).rev() {
+        node = act("A", ActKind::Rename(format!("r{k}")), 10 * k as u64).then(vec![node]);
+    }
+    let sc = base("retention-change", &m, &ad, &[], vec![node]);
+    let w = match build_world(&sc, Bk::Sqlite) {
+        Ok(w) => w,
+        Err(e) => {
+            rep.machinery_errors.push(format!("c20_retention_change world: {}", e.0));
+            return;
+        }
+    };
+    let commits: Vec<usize> = w.spine.iter().skip(1).filter_map(|p| w.pool.iter().position(|e| e.kind == EvKind::Commit && e.child.as_ref() == Some(p))).collect();
+    if commits.len() != 6 {
+        rep.machinery_errors.push(format!("c20_retention_change: expected 6 spine commits, got {}", commits.len()));
+        return;
+    }
+    for r1 in 0..=6usize {
+        for r2 in 0..=6usize {
+            for pos in 1..6usize {
+                let cfg1 = Cfg { epoch_snapshot_retention: r1, ..sc.cfg.clone() };
+                let cfg2 = Cfg { epoch_snapshot_retention: r2, ..sc.cfg.clone() };
+                let mut c = w.initial["Z"].restart_with(&cfg1);
+                for i in &commits[..pos] {
+                    c = crate::explore::step_on(&w, c, Action::Deliver(*i)).client;
+                }
+                let before = list_snaps(&c, &w.gid).len();
+                let mut c = c.restart_with(&cfg2);
+                c = crate::explore::step_on(&w, c, Action::Deliver(commits[pos])).client;
+                let mut after: Vec<String> = list_snaps(&c, &w.gid).into_iter().map(|x| x.0).collect();
+                after.sort();
+                rep.case(&format!("retention-change|{r1}|{r2}|{pos}|{before}|{}", after.len()));
+                rep.evaluations += 1;
+                // the snapshot names carry the epoch they were taken at
+                let epochs: Vec<u64> = after.iter().filter_map(|n| n.rsplit('_').nth(1).and_then(|e| e.parse().ok()).or_else(|| n.split("_epoch_").nth(1).and_then(|x| x.split('_').next()).and_then(|e| e.parse().ok()))).collect();
+                if after.len() > r2 {
+                    rep.finding(
+                        format!("C20|retention-after-restart|stored>{}", if r2 < r1 { "lowered-retention" } else { "retention" }),
+                        format!("stored under retention {r1} ({before} snapshots), restarted with retention {r2}, one more commit: the store holds {} snapshots {after:?}", after.len()),
+                        json!({"r1": r1, "r2": r2, "restart_after_commits": pos, "stored": after, "epochs": epochs}),
+                    );
+                }
+            }
+        }
+    }
+    rep.states += 1;
+}
